@@ -209,11 +209,13 @@ func (c *wsConn) enqueue(f func()) {
 	// If the queue was empty, the worker is idling
 	// Let's wake it up.
 	if count == 0 {
+		verifKick(c)
 		c.work <- struct{}{}
 	}
 }
 
 func (c *wsConn) Send(data []byte) {
+	verifFrame(c, data)
 	if c.ws != nil {
 		c.Tracef("<<- %s", data)
 		c.ws.WriteMessage(websocket.TextMessage, data)
@@ -221,6 +223,7 @@ func (c *wsConn) Send(data []byte) {
 }
 
 func (c *wsConn) Reply(data []byte) {
+	verifFrame(c, data)
 	if c.ws != nil {
 		c.Tracef("<-- %s", data)
 		c.ws.WriteMessage(websocket.TextMessage, data)
@@ -677,12 +680,14 @@ func (c *wsConn) Access(s *Subscription, cb func(*rescache.Access)) {
 
 func (c *wsConn) outputWorker() {
 	for range c.work {
+		verifBegin(c)
 		idx := 0
 		var f func()
 		c.mu.Lock()
 		for len(c.queue) > idx {
 			f = c.queue[idx]
 			c.mu.Unlock()
+			verifYield(c)
 			f()
 			idx++
 			c.mu.Lock()
@@ -694,6 +699,7 @@ func (c *wsConn) outputWorker() {
 			c.queue = c.queue[0:0]
 		}
 		c.mu.Unlock()
+		verifEnd(c)
 	}
 
 	c.queue = nil
